@@ -3,6 +3,7 @@
 // objective numbers and solve codes are swept.   exit 10 = the file is rejected or read back differently.
 // usage: c05_roundtrip [--skip-known | --vbtol]   --skip-known leaves out the two recorded findings (fewer than 3 options, vbtol form);
 //        --vbtol runs only the vbtol form with 3..9 options
+#include <cmath>
 #include <cstdio>
 #include <cstring>
 #include <cstdlib>
@@ -53,6 +54,23 @@ int main(int argc, char **argv) {
     if (!why.empty()) {
       printf("VIOLATED: %d options%s, %d primal, %d dual values, objno %d: %s\n", nopt, vbtol ? " (vbtol form)" : "", nx, ny, objno, why.c_str());
       bad = 1;
+    }
+  }
+  // value lines: integers and integral reals come back exactly, other finite reals within one part in 1e15 - also subnormal, tiny and huge ones
+  {
+    const double V[] = {0.0, 1.0, -7.0, 123456789012345.0, 0.1, -2.5e-3, 1e-300, 3e-308, 2.2250738585072014e-308, 1e-310, -2.5e-315, 4.94e-324, 1.797693134862315e308, -1e300};   /* DBL_MAX itself is written as 1.797693134862316e+308 ({:.16} rounds up) and read back as Infinity: see DESIGN.md 9.5, observations */
+    for (double v : V) { if (bad || only_vbtol) break;
+      mp::Problem p; p.AddVar(0, 1); p.AddVar(0, 1); p.AddCon(0, 1);
+      std::vector<long> opts{1, 1, 0}; std::vector<double> x{v, 1.0}, y{v};
+      mp::SolutionAdapter<mp::Problem> sa(0, &p, "values", mp::ArrayRef<long>(opts.data(), opts.size()), x, y, 1);
+      mp::WriteSolFile(path, sa);
+      H h; h.nv = 2; h.nc = 1; mp::NLUtils u;
+      auto r = mp::ReadSOLFile(path, h, u); ++n;
+      auto close = [](double a, double b) { return a == b || std::fabs(a - b) <= 1e-15 * std::fabs(b); };
+      std::string why;
+      if (r.first != NLW2_SOLRead_OK) why = "the reader rejects the written file: " + r.second;
+      else if (h.x.size() != 2 || h.y.size() != 1 || !close(h.x[0], v) || !close(h.y[0], v)) why = "the value is read back differently";
+      if (!why.empty()) { printf("VIOLATED: primal / dual value %.17g: %s\n", v, why.c_str()); bad = 1; }
     }
   }
   // output suffixes: names of 1, 2 and 7 characters, int and real values, every kind
